@@ -486,11 +486,18 @@ func filterFloatformat(in *Value, param *Value) (*Value, *Error) {
 
 func filterGetdigit(in *Value, param *Value) (*Value, *Error) {
 	i := param.Integer()
-	l := len(in.String()) // do NOT use in.Len() here!
+	s := in.String()
+	l := len(s) // do NOT use in.Len() here!
 	if i <= 0 || i > l {
 		return in, nil
 	}
-	return AsValue(in.String()[l-i] - 48), nil
+	// what is not a whole number (or the position of its sign) is handed back unchanged
+	for k := 0; k < l; k++ {
+		if (s[k] < '0' || s[k] > '9') && !(k == 0 && s[k] == '-' && l > 1 && i < l) {
+			return in, nil
+		}
+	}
+	return AsValue(int(s[l-i] - '0')), nil
 }
 
 const filterIRIChars = "/#%[]=:;$&()+,!?*@'~"
